@@ -106,7 +106,7 @@ def chunk_local_index(o):
     o.assume(k >= 1)
     q = z3.Int('q_')
     o.assume(z3.ForAll([q], z3.Implies(z3.And(q >= 0, q < k), z3.Select(chunks.a, q) > 0)))
-    rec = Obj(o.cls(REC))
+    rec = o.new(REC)                        # through the real __init__ (whatever bookkeeping fields it sets up), then the reported chunks
     rec.fields['_chunks'] = chunks
     o.track(rec)
     ps = o.paths(lambda: o.I.call(o.method(rec, 'chunk_local_index'), [SV(g, kind='scalar')]))
@@ -123,7 +123,41 @@ def chunk_local_index(o):
     o.prove('CI[j] <= g < CI[j+1]', z3.Implies(rng, z3.And(lo <= g, g < z3.Select(CS, j.t))), under=p.pc)
     o.prove('local index = g - CI[j] within the chunk', z3.Implies(rng, z3.And(l.t == g - lo, l.t >= 0, l.t < z3.Select(chunks.a, j.t))), under=p.pc)
     o.canary('canary: chunk number is always 0', z3.Implies(rng, j.t == 0), under=p.pc)
+    # streaming use: a look-up, then a further chunk is reported, then another look-up on the same recorder - the second answer is about ALL chunks reported so far
+    # (added after seed C01-e cached the chunk borders at the first look-up)
+    c_new, g2 = o.int('c_new'), o.int('g2')
+    o.assume(c_new > 0)
+    rec2 = o.new(REC)
+    rec2.fields['_chunks'] = chunks
+    n_cs = len(o.I.cumsum_records)
 
+    def history():
+        n0 = len(o.I.cumsum_records)
+        o.I.call(o.method(rec2, 'chunk_local_index'), [SV(g, kind='scalar')])
+        o.I.call(o.method(rec2, 'report_chunk'), [SV(c_new)])
+        n1 = len(o.I.cumsum_records)
+        r = o.I.call(o.method(rec2, 'chunk_local_index'), [SV(g2, kind='scalar')])
+        return r, list(o.I.cumsum_records[n1:]), n1 - n0
+    o.track(rec2)
+    ps2 = o.paths(history)
+    rets2 = [p_ for p_ in ps2 if p_.kind == 'return']
+    o.shape('look-up / report_chunk / look-up has exactly one returning path', len(rets2) == 1, [(p_.kind, getattr(p_.exc, 'lineno', None)) for p_ in ps2])
+    p2 = rets2[0]
+    (j2, l2), recs2, _n_first = p2.result
+    # the second answer, stated like the first one over the prefix sums the second look-up forms of the chunk list it sees (no induction needed); that list has to be
+    # the reported chunks followed by the new one.  An implementation that answers the second look-up without forming prefix sums again is outside this contract
+    # (reported as unbound; the streaming look-ups of the bounded contract chunk-independence decide it)
+    if len(recs2) < 1:
+        o.note("the second look-up forms no prefix sums of its own: history obligations not generated")
+        return
+    A2, CS2 = recs2[-1]['in'], recs2[-1]['out']
+    o.prove('the second look-up works on the reported chunks followed by the new chunk',
+            z3.And(A2.n == k + 1, z3.Select(A2.a, k) == c_new, z3.ForAll([q], z3.Implies(z3.And(q >= 0, q < k), z3.Select(A2.a, q) == z3.Select(chunks.a, q)))), under=p2.pc)
+    total2 = z3.Select(CS2, k)
+    rng2 = z3.And(g2 >= 0, g2 < total2)
+    lo2 = z3.If(j2.t == 0, z3.IntVal(0), z3.Select(CS2, j2.t - 1))
+    o.prove('second look-up: chunk number in range', z3.Implies(rng2, z3.And(j2.t >= 0, j2.t < k + 1)), under=p2.pc)
+    o.prove('second look-up: CI[j] <= g < CI[j+1] and local index = g - CI[j]', z3.Implies(rng2, z3.And(lo2 <= g2, g2 < z3.Select(CS2, j2.t), l2.t == g2 - lo2)), under=p2.pc)
 
 FPD = 'pylife/stress/rainflow/fourpoint.py::FourPointDetector'
 TPD = 'pylife/stress/rainflow/threepoint.py::ThreePointDetector'
@@ -323,6 +357,25 @@ def b_chunks(ctx):
                 s.append(float(rng.randrange(lo, hi + 1)))
             up = not up
         s = tuple(s)
+        # streaming use of the recorder's chunk bookkeeping: after EVERY chunk the indices reported so far are looked up (added after seed C01-e cached the chunk
+        # borders at the first look-up)
+        if w % 8 == 0:
+            import numpy as np
+            for det in ('three', 'four'):
+                from contracts.rainflow_bounded import make
+                d_, rec_ = make(det)
+                sizes_ = [3, 2, 4, len(s) - 9]
+                pos = 0
+                for z in sizes_:
+                    d_.process(np.asarray(s[pos:pos + z], dtype=float))
+                    pos += z
+                    chs, borders = split(s, sizes_), np.cumsum([0] + sizes_)
+                    for gidx in list(map(int, rec_.index_from)) + list(map(int, rec_.index_to)) + list(map(int, d_.residual_index)):
+                        cn, li = rec_.chunk_local_index(np.int64(gidx))
+                        ctx.case(True)
+                        if not (0 <= cn < len(sizes_) and 0 <= li < sizes_[cn] and borders[cn] + li == gidx and chs[cn][li] == s[gidx]):
+                            ctx.fail('C01:chunk_local_index:streaming', f'{det}: after {pos} samples in chunks {sizes_} global index {gidx} of {list(s)} is mapped to chunk {cn} position {li}', repro_chunks(det, s, sizes_))
+                            break
         cuts = sorted(rng.sample(range(1, len(s)), rng.randrange(2, 5)))
         parts = [[c, len(s) - c] for c in range(1, len(s))] + [[b_ - a_ for a_, b_ in zip([0] + cuts, cuts + [len(s)])]]
         for det in DETECTORS:
